@@ -25,7 +25,10 @@ Import ListNotations.
 Record cglobal := CG {
   g_nsmap : list (N * N);          (* xml.etree.ElementTree._namespace_map *)
   g_factory_ns : N;                (* collada.common.E's namespace *)
-  g_defaults : list (N * N)        (* class-level defaults *)
+  g_defaults : list (N * N);       (* class-level defaults *)
+  g_semantics : list N;            (* collada.source.InputList.semantics: one list for the whole process *)
+  g_reclimit : nat;                (* sys.getrecursionlimit() *)
+  g_nperr : bool                   (* numpy.geterr(): true = invalid/divide raise, false = warn/ignore *)
 }.
 
 Record cdocst := CD {
@@ -43,7 +46,10 @@ Inductive cop :=
 | OMakeSurface (image_id : N)
 | OElement (tag : N)
 | OWrittenPrefix
-| OClassDefault (attr : N).
+| OClassDefault (attr : N)
+| OAddInput (sem : N)              (* InputList().addInput(offset, sem, source) on a fresh InputList *)
+| OLoadNested (depth : nat)        (* loading `depth` nested <node>s: two frames per level *)
+| ODegenerate.                     (* a computation that divides by zero (face normal of a zero-area triangle) *)
 
 Inductive cout :=
 | UNone
@@ -51,7 +57,9 @@ Inductive cout :=
 | UQName (ns text : N)
 | UId (i : N)
 | UPrefix (p : option N)
-| UDefault (v : option N).
+| UDefault (v : option N)
+| UAccepted (b : bool)
+| UValue (nan : bool).
 
 Definition nget := @dget N N N.eqb.
 
@@ -69,6 +77,9 @@ Definition dstep (o : cop) (g : cglobal) (d : cdocst) : cdocst * cout :=
   | OElement t => (d, UQName (g_factory_ns g) t)
   | OWrittenPrefix => (d, UPrefix (nget (g_nsmap g) (dm_ns d)))
   | OClassDefault a => (d, UDefault (nget (g_defaults g) a))
+  | OAddInput sem => (d, UAccepted (existsb (N.eqb sem) (g_semantics g)))     (* else DaeUnsupportedError *)
+  | OLoadNested depth => (d, URaised (if Nat.ltb (2 * depth) (g_reclimit g) then None else Some PyOther))
+  | ODegenerate => (d, if g_nperr g then URaised (Some PyOther) else UValue true)
   end.
 
 Section Lift.
@@ -106,4 +117,14 @@ Definition leaky_counter_step (o : cop) (i : nat) (s : state (cglobal * N) cdocs
       let id := (1000 * im + n)%N in
       (((fst (fst s), (n + 1)%N), upd_doc (snd s) i (CD (dm_mask d) (dm_errors d) (dm_ns d) (dm_ids d ++ [id]))), UId id)
   | _ => let '(d', out) := dstep o (fst (fst s)) (snd s i) in ((fst s, upd_doc (snd s) i d'), out)
+  end.
+
+(* a step that breaks the shape: taking an input list registers a foreign semantic in the class-level
+   list (seeded change C20-em3) *)
+Definition leaky_semantics_step (o : cop) (i : nat) (s : state cglobal cdocst) : state cglobal cdocst * cout :=
+  match o with
+  | OTag sem =>      (* stands for getInputList() on a primitive carrying the foreign semantic sem *)
+      let g := fst s in
+      ((CG (g_nsmap g) (g_factory_ns g) (g_defaults g) (sem :: g_semantics g) (g_reclimit g) (g_nperr g), snd s), UNone)
+  | _ => let '(d', out) := dstep o (fst s) (snd s i) in ((fst s, upd_doc (snd s) i d'), out)
   end.
